@@ -925,12 +925,9 @@ func (e *Env) call(x *SExpr) Val {
 		if kindOf(v.T) != KIface || x.Args[1].Op != "ident" {
 			return e.errorf("typeis(iface, TypeName)")
 		}
-		t := e.typeByName(strings.TrimPrefix(x.Args[1].Name, "ptr_"))
+		t := e.typeByName(x.Args[1].Name) // handles ptr_ and package-qualified names (ptr_bytes_DOT_Buffer)
 		if t == nil {
 			return e.errorf("unknown type %s", x.Args[1].Name)
-		}
-		if strings.HasPrefix(x.Args[1].Name, "ptr_") {
-			t = types.NewPointer(t)
 		}
 		return Val{T: tBool, S: sEq(v.Sub[0].S, fc.typeID(t))}
 	case "payload":
